@@ -112,8 +112,7 @@ Definition known_of (ts : list tok) : string :=
   else if cls_shift ts then "shift-opcodes"
   else if cls_num2bin ts then "num2bin"
   else if cls_verif ts then "verif-conditional"
-  else if cls_unbalanced ts then "unbalanced-conditional"
-  else if cls_long_index ts ([], []) then "long-index-operand"
+  else if cls_second_else ts then "unbalanced-conditional-unexecuted"
   else "-".
 
 (* (spec of interp.run, spec of interp.trace, known class) *)
@@ -210,7 +209,7 @@ Definition impl_step_vs_run (bits : list bit) : string :=
 
 (* C16: whatever the script, a state or an error; stepping = run; an error keeps the stacks *)
 Definition spec_step_vs_run : string :=
-  "OK:*;*;*;*;*;*;*;*;*;*;*;*;*;*;*;-;1;1~OK:*;*;*;*;*;*;*;*;*;*;*;*;*;*;*;E1;1;1".
+  "OK:F;*;*;*;*;*;*;*;O;*;*;*;*;*;*;-;1;1~OK:E;*;*;*;*;*;*;*;E;*;*;*;*;*;*;E1;1;1".
 
 (* ------------------------------------------------------------------ *)
 Definition bits_eqb (a b : list bit) : bool := String.eqb (show_bits a) (show_bits b).
